@@ -6,7 +6,7 @@ Import TlsPolicy Wire.
 
 Definition today : tables :=
   {| tb_auth := auth_sets; tb_ctl := ctl_sites; tb_enc := enc_sites; tb_calls := call_keys;
-     tb_lits := msg_lits; tb_writes := clear_writes; tb_flows := marshal_flows |}.
+     tb_lits := msg_lits; tb_writes := clear_writes; tb_flows := marshal_flows; tb_crw := crypto_rw_shape |}.
 
 Inductive case :=
 (* real CheckAndEnableTLSServerConnWithTimeout on a connection whose peer sends byte b first.
@@ -25,8 +25,10 @@ Inductive case :=
                   (proto' : string) (mux' enable' disable' : bool)
 (* first byte a real frpc puts on the raw connection *)
 | CFirstByte (cfg : wcfg) (first : Z)
-(* a full run through the recording relay: atoms whose markers were found in the capture *)
-| CWire (cfg : wcfg) (hist : list wevent) (observed : list atom) (session_up : bool)
+(* a full run through the recording relay: atoms whose markers were found in the capture as recorded
+   (observed), and after the observer also opened, with the key derived from the empty string, the
+   cipher streams of a configuration whose token is empty (observed_public; = observed otherwise) *)
+| CWire (cfg : wcfg) (hist : list wevent) (observed observed_public : list atom) (session_up : bool)
 (* certificate matrix: did a session come up / did the server interpret a protocol message *)
 | CCert (server_ca client_cert_ok client_has_cert client_ca name_matches ca_matches : bool) (session_up : bool).
 
@@ -103,12 +105,14 @@ Definition check_case (c : case) : Z :=
       else if negb (beq (from_ptr (ct_tls_enable c')) enable') then 32
       else if negb (beq (from_ptr (ct_disable_custom_first_byte c')) disable') then 33 else 0
   | CFirstByte cfg first => if raw_first_byte cfg =? first then 0 else 40
-  | CWire cfg hist observed up =>
+  | CWire cfg hist observed observed_public up =>
       let w := wire today cfg hist in
       if existsb has_bad w then 50
       else if negb (beq (accepted cfg) up) then 51
       else if negb (subset observed (visible_all nobody w)) then 52
-      else if up && negb (subset (visible_sure_all w) observed) then 53
+      else if up && negb (subset (visible_sure_all nobody w) observed) then 53
+      else if negb (subset observed_public (visible_all (public cfg) w)) then 54
+      else if up && negb (subset (visible_sure_all (public cfg) w) observed_public) then 55
       else 0
   | CCert server_ca client_cert_ok client_has_cert client_ca name_matches ca_matches up =>
       if beq (cert_expect server_ca client_cert_ok client_has_cert client_ca name_matches ca_matches) up then 0 else 60
@@ -117,16 +121,24 @@ Definition check_case (c : case) : Z :=
 (* property monitor on an observed capture: no secret marker readable; nothing readable under TLS *)
 Definition C05_holds (c : case) : bool :=
   match c with
-  | CWire cfg _ observed _ =>
-      negb (existsb is_secret observed) && (negb (conn_tls cfg) || match observed with [] => true | _ => false end)
+  | CWire cfg _ observed observed_public _ =>
+      (* nothing secret in the bytes as recorded, in any configuration; nothing at all under TLS;
+         the public observer reads a secret only in the recorded finding class F-C05a (empty token, TLS off) *)
+      negb (existsb is_secret observed) &&
+      (negb (conn_tls cfg) || match observed_public with [] => true | _ => false end) &&
+      (negb (existsb is_secret observed_public) || (w_token_empty cfg && negb (conn_tls cfg)))
   | CSniffSys force b cls => negb (force && (cls =? 1))
   | _ => true
   end.
 
-Definition is_wire (c : case) : bool := match c with CWire _ _ _ _ => true | _ => false end.
+Definition is_wire (c : case) : bool := match c with CWire _ _ _ _ _ => true | _ => false end.
 Definition wire_clear_payload (c : case) : bool :=
-  match c with CWire _ _ o _ => existsb is_payload o | _ => false end.
+  match c with CWire _ _ o _ _ => existsb is_payload o | _ => false end.
 Definition wire_hidden_all (c : case) : bool :=
-  match c with CWire cfg _ [] true => true | _ => false end.
+  match c with CWire cfg _ [] [] true => true | _ => false end.
 Definition wire_rejected (c : case) : bool :=
-  match c with CWire _ _ _ false => true | _ => false end.
+  match c with CWire _ _ _ _ false => true | _ => false end.
+Definition wire_empty_token (c : case) : bool :=
+  match c with CWire cfg _ _ _ true => w_token_empty cfg | _ => false end.
+Definition wire_public_reads_secret (c : case) : bool :=
+  match c with CWire cfg _ _ o true => existsb is_secret o | _ => false end.
